@@ -73,8 +73,12 @@ func copyBlock(v reflect.Value, block Block) error {
 		}
 	}
 
-	// used maps a struct field, by its index path, to the block key stored there
-	used := map[string]string{}
+	// used lists the struct fields already written, by index path, with the block key stored there
+	type usedField struct {
+		index []int
+		key   string
+	}
+	var used []usedField
 
 	setField := func(name string, x any, optional bool) error {
 		var f reflect.StructField
@@ -103,11 +107,12 @@ func copyBlock(v reflect.Value, block Block) error {
 			return fmt.Errorf("block.%s is nil, can't be stored in struct.%s", name, f.Name)
 		}
 		if !optional {
-			idx := fmt.Sprint(f.Index)
-			if other, ok := used[idx]; ok {
-				return fmt.Errorf("both block.%s and block.%s map to struct.%s", other, name, f.Name)
+			for _, u := range used {
+				if indexOverlaps(u.index, f.Index) {
+					return fmt.Errorf("both block.%s and block.%s map to struct.%s", u.key, name, f.Name)
+				}
 			}
-			used[idx] = name
+			used = append(used, usedField{f.Index, name})
 		}
 
 		fv, err := v.FieldByIndexErr(f.Index)
@@ -155,6 +160,17 @@ fields:
 		}
 	}
 	return nil
+}
+
+// indexOverlaps tells whether one field index path is a prefix of the other,
+// that is whether a field is the other one or lies inside it (via embedding).
+func indexOverlaps(a, b []int) bool {
+	for i := 0; i < len(a) && i < len(b); i++ {
+		if a[i] != b[i] {
+			return false
+		}
+	}
+	return true
 }
 
 type fieldMappingErr string
